@@ -921,6 +921,16 @@ pub fn string_code_point_at(
     }))
 }
 
+/// The pattern `new RegExp(arg)` would have: `undefined` is the empty pattern
+#[cfg(feature = "regex")]
+fn regexp_source_of(interp: &mut Interpreter, arg: &JsValue) -> String {
+    if arg.is_undefined() {
+        String::new()
+    } else {
+        interp.to_js_string(arg).to_string()
+    }
+}
+
 /// String.prototype.match(regexp)
 /// Returns an array of matches or null if no match
 #[cfg(not(feature = "regex"))]
@@ -960,11 +970,11 @@ pub fn string_match(
         } else {
             // Convert to string and use as pattern
             drop(obj_ref);
-            (interp.to_js_string(&arg).to_string(), String::new())
+            (regexp_source_of(interp, &arg), String::new())
         }
     } else {
         // Convert to string and use as pattern
-        (interp.to_js_string(&arg).to_string(), String::new())
+        (regexp_source_of(interp, &arg), String::new())
     };
 
     let re = interp.compile_regexp(&pattern, &flags)?;
@@ -1074,11 +1084,11 @@ pub fn string_match_all(
         } else {
             drop(obj_ref);
             // Convert to string, treat as global search
-            (interp.to_js_string(&arg).to_string(), "g".to_string())
+            (regexp_source_of(interp, &arg), "g".to_string())
         }
     } else {
         // Convert to string, treat as global search
-        (interp.to_js_string(&arg).to_string(), "g".to_string())
+        (regexp_source_of(interp, &arg), "g".to_string())
     };
 
     let re = build_regex(&pattern, &flags)?;
@@ -1153,10 +1163,10 @@ pub fn string_search(
             (pattern.clone(), flags.clone())
         } else {
             drop(obj_ref);
-            (interp.to_js_string(&arg).to_string(), String::new())
+            (regexp_source_of(interp, &arg), String::new())
         }
     } else {
-        (interp.to_js_string(&arg).to_string(), String::new())
+        (regexp_source_of(interp, &arg), String::new())
     };
 
     let re = interp.compile_regexp(&pattern, &flags)?;
